@@ -469,6 +469,17 @@ class RawAlgorithmsMixIn:
                            axis=0)
                          )
 
+    @staticmethod
+    def _exact_exponent(r):
+        """ 0-d arrays are unwrapped and non-negative integer-valued floats (2.0, numpy.float64(3))
+        become python ints: such powers are polynomial in x and take the exact integer path, which
+        does not divide by the zeroth coefficient """
+        if isinstance(r, numpy.ndarray) and r.ndim == 0:
+            r = r[()]
+        if isinstance(r, (float, numpy.floating)) and r >= 0 and float(r).is_integer():
+            r = int(r)
+        return r
+
     @classmethod
     def _pow_real(cls, x_data, r, out = None):
         """ y = x**r, where r is scalar """
@@ -476,6 +487,7 @@ class RawAlgorithmsMixIn:
         if out is None:
             raise NotImplementedError
         (D,P) = y_data.shape[:2]
+        r = cls._exact_exponent(r)
 
         if isinstance(r, (int, numpy.integer)) and r >= 0:
             if r == 0:
@@ -531,6 +543,7 @@ class RawAlgorithmsMixIn:
         # print 'xbar_data=',xbar_data
         # print 'ybar_data=',ybar_data
 
+        r = cls._exact_exponent(r)
         if isinstance(r, (int, numpy.integer)) and r >= 0:
 
             if r > 0:
